@@ -1,3 +1,102 @@
 import Srctools.Wire
-/-! stub driver (echo) — replaced when the property's model exists. -/
-def main : IO Unit := Wire.main fun j => pure j
+import Srctools.Model.C19
+import Srctools.Gen.Fsys
+import Srctools.Gen.Fswalk
+/-! Driver for the filesystem-backend model (C19).  Strings are code point arrays.
+  {"op":"cfg"} → [virtRootFix, sepMatch, foldMatch]          (from Gen.Fswalk)
+  {"op":"fs","fold":[[cp,[cp…]]…],"cwd":s,"cfg":null|[b,b,b],
+   "sets":[{"files":[[name,id]…],"root":s}…],"queries":[s…],"folders":[s…],
+   "single":[setIndex…],"chains":[[[kind,setIndex,pfx]…]…]}           kind ∈ "V" "Z" "P" "R"
+  → {"single":[{"V":{"lookup":[L…],"walk":[W…]},"Z":…,"P":…,"R":…}…],
+     "chains":[{"lookup":[L…],"walkrep":[W…],"walk":[W…]}…]}
+  L = [path,id] | "notfound" | "escape";  W = [[path,id]…] | "escape"
+-/
+open Lean Path C19
+
+def strArr (j : Json) : Except String (List Str) := do
+  let a ← j.getArr?
+  a.toList.mapM Wire.strOfCodes
+
+def foldOf (j : Json) : Except String (Char → List Char) := do
+  let a ← j.getArr?
+  let pairs ← a.toList.mapM fun p => do
+    let q ← p.getArr?
+    let k ← (q[0]!).getNat?
+    let v ← Wire.strOfCodes (q[1]!)
+    pure (Char.ofNat k, v)
+  pure fun c => match pairs.find? (·.1 == c) with
+    | some p => p.2
+    | none => [c]
+
+def sJ (s : Str) : Json := Wire.codesOfStr s
+def nJ (n : Nat) : Json := Json.num (JsonNumber.fromNat n)
+def lJ {α} (f : α → Json) (l : List α) : Json := Json.arr (l.map f).toArray
+
+def errJ : C18.Err → Json
+  | .escape => Json.str "escape"
+  | .notFound => Json.str "notfound"
+
+def exJ {α} (f : α → Json) : Except C18.Err α → Json
+  | .ok a => f a
+  | .error e => errJ e
+
+def pairJ (x : Str × Nat) : Json := Json.arr #[sJ x.1, nJ x.2]
+
+def setOf (j : Json) : Except String (FileSet × Str) := do
+  let fs ← (← j.getObjVal? "files").getArr?
+  let files ← fs.toList.mapM fun e => do
+    let q ← e.getArr?
+    let n ← Wire.strOfCodes (q[0]!)
+    let i ← (q[1]!).getNat?
+    pure (⟨n, i⟩ : FEnt)
+  let root ← Wire.strOfCodes (← j.getObjVal? "root")
+  pure (files, root)
+
+def kindOf (s : String) : Except String Kind :=
+  match s with
+  | "V" => pure .virt | "Z" => pure .zip | "P" => pure .vpk | "R" => pure .raw
+  | _ => throw "kind?"
+
+def handle (j : Json) : Except String Json := do
+  let op ← j.getObjValAs? String "op"
+  match op with
+  | "cfg" =>
+    let c := Gen.Fswalk.walkCfg
+    pure (Json.arr #[Json.bool c.virtRootFix, Json.bool c.sepMatch, Json.bool c.foldMatch])
+  | "fs" =>
+    let fold ← foldOf (← j.getObjVal? "fold")
+    let cwd ← Wire.strOfCodes (← j.getObjVal? "cwd")
+    let cfg ← match (j.getObjVal? "cfg").toOption.getD Json.null with
+      | Json.null => pure Gen.Fswalk.walkCfg
+      | c => do
+        let a ← c.getArr?
+        pure (⟨← (a[0]!).getBool?, ← (a[1]!).getBool?, ← (a[2]!).getBool?⟩ : WalkCfg)
+    let E : Env := ⟨cfg, Gen.Fsys.cfg, fold, cwd⟩
+    let sets ← (← (← j.getObjVal? "sets").getArr?).toList.mapM setOf
+    let qs ← strArr (← j.getObjVal? "queries")
+    let ds ← strArr (← j.getObjVal? "folders")
+    let single ← Wire.natList (← j.getObjVal? "single")
+    let backend (k : Kind) (i : Nat) : Backend :=
+      let s := sets.getD i ([], [])
+      ⟨k, s.1, s.2⟩
+    let one (b : Backend) : Json := Json.mkObj [
+      ("lookup", lJ (fun q => exJ pairJ (lookup E b q)) qs),
+      ("walk", lJ (fun d => exJ (lJ pairJ) (walkB E b d)) ds)]
+    let singles := single.map fun i => Json.mkObj [
+      ("V", one (backend .virt i)), ("Z", one (backend .zip i)),
+      ("P", one (backend .vpk i)), ("R", one (backend .raw i))]
+    let chainsJ ← (← (← j.getObjVal? "chains").getArr?).toList.mapM fun c => do
+      let ms ← (← c.getArr?).toList.mapM fun m => do
+        let a ← m.getArr?
+        let k ← kindOf (← (a[0]!).getStr?)
+        let i ← (a[1]!).getNat?
+        let p ← Wire.strOfCodes (a[2]!)
+        pure (⟨backend k i, p⟩ : Member)
+      pure (Json.mkObj [
+        ("lookup", lJ (fun q => exJ pairJ (chainLookup E q ms)) qs),
+        ("walkrep", lJ (fun d => exJ (lJ pairJ) (chainWalkRepeat E d ms)) ds),
+        ("walk", lJ (fun d => exJ (lJ pairJ) (chainWalk E d ms)) ds)])
+    pure (Json.mkObj [("single", Json.arr singles.toArray), ("chains", Json.arr chainsJ.toArray)])
+  | _ => throw s!"unknown op {op}"
+
+def main : IO Unit := Wire.main handle
